@@ -26,7 +26,7 @@ RULE = ("O1: calculate()/validate() of the repo against a bitwise CRC-16/MODBUS 
 ASSUMPTIONS = ["refproto.crc16 (bitwise) is anchored by every CRC printed in the vendor PDFs",
                "SimNet models TCP delivery; fidelity cross-check in C07 thorough",
                "inductive extension of the CRC to all lengths is not claimed"]
-REQUIRED_OBS = ["crc_strings", "corrupt_resets", "probe_after_reset_delivered"]
+REQUIRED_OBS = ["corner_frames_delivered", "crc_strings", "corrupt_resets", "probe_after_reset_delivered"]
 BUDGET = {"quick": 100, "thorough": 1500}
 
 MAX_PROBE_BYTES = 65535
@@ -36,6 +36,8 @@ def cases(tier, seed):
     rnd = random.Random(f"C06/{tier}/{seed}")
     # ---- O1
     yield {"k": "crc1"}
+    for gen in (4, 5):
+        yield {"k": "corner", "gen": gen}
     for b in range(256):
         yield {"k": "crc2", "b0": b}
     yield {"k": "crc_random", "seed": rnd.randrange(1 << 30),
@@ -104,6 +106,64 @@ def cases(tier, seed):
                 bursts = rnd.sample(bursts, min(len(bursts), 150))
             for chunk in _chunks(bursts, 64):
                 yield {"k": "corrupt", "gen": gen, "kind": name, "patterns": chunk}
+
+
+def _crc_more(reg, data):
+    """Continue the reference (bitwise) CRC-16/MODBUS from register value `reg`."""
+    for byte in data:
+        reg ^= byte
+        for _ in range(8):
+            reg = (reg >> 1) ^ 0xA001 if reg & 1 else reg >> 1
+    return reg
+
+
+_CORNERS = {}
+
+
+def corner_frames(gen):
+    if gen not in _CORNERS:
+        _CORNERS[gen] = _corner_frames(gen)
+    return _CORNERS[gen]
+
+
+def _corner_frames(gen):
+    """Intact frames of unknown types that drive the CRC computation through the boundary
+    values of its 16-bit state: register 0x0000 / 0xFFFF right after the six covered header
+    bytes (for given addresses and type exactly one (packet id, length) pair does that), and
+    a final check value of 0x0000 / 0xFFFF."""
+    out = []
+    for frm in (0x80, 0x90):
+        for typ in (0x77, 0x01):
+            for target in (0x0000, 0xFFFF):
+                hit = None
+                for pid in range(256):
+                    reg5 = _crc_more(R.crc16(bytes([R.ADDR_CLIENT, frm, pid, typ])), b"\x00")
+                    for ln in range(256):
+                        if _crc_more(reg5, bytes([ln])) == target:
+                            hit = (pid, ln)
+                if hit is None:
+                    continue
+                pid, ln = hit
+                body = bytes((7 * i + 3) % 251 if (7 * i + 3) % 251 != 0x55 else 0x54
+                             for i in range(ln))
+                out.append((f"header-state-{target:04x}", R.frame(gen, R.ADDR_CLIENT, frm, pid,
+                                                                  typ, body)))
+    for target in (0x0000, 0xFFFF):
+        head = bytes([R.ADDR_CLIENT, 0x80, 9, 0x77, 0, 12]) + bytes(range(1, 11))
+        regh = R.crc16(head)
+        for a in range(256):
+            rega = _crc_more(regh, bytes([a]))
+            for b in range(256):
+                if a == 0x55 or b == 0x55:
+                    continue
+                if _crc_more(rega, bytes([b])) == target:
+                    out.append((f"check-value-{target:04x}", R.frame(
+                        gen, R.ADDR_CLIENT, 0x80, 9, 0x77, bytes(range(1, 11)) + bytes([a, b]))))
+                    break
+            else:
+                continue
+            break
+    return out
 
 
 def _rev(b):
@@ -350,7 +410,54 @@ def run_corrupt_one(gen, kind, raw_a, raw_b_intact, bits):
     return viol, obs
 
 
+def run_corner(case):
+    """Frames at the boundary values of the CRC state: intact they are delivered like any
+    other (between two probes, no reset); with their check bytes replaced by plausible wrong
+    values (CRC of the payload alone, of the header alone, 0x0000, 0xFFFF) they are not."""
+    gen = case["gen"]
+    viol, obs = [], {}
+    n = 0
+    a, q = F.probe_frame(gen, 7), F.probe_frame(gen, 8)
+    for name, raw in corner_frames(gen):
+        async def main(loop, net, log, raw=raw):
+            w = SockWorld(gen, loop, net, log)
+            await w.open()
+            c = net.current()
+            c.transport.peer_data(a + raw + q)
+            await quiesce(loop)
+            res = (len(w.msgs), c.open, len(net.conns))
+            await w.close()
+            return res
+        res, log, st = H.run(main)
+        n += 1
+        if st != "ok" or res != (3, True, 1):
+            viol.append({"mechanism": "intact-frame-at-crc-state-boundary-not-delivered",
+                         "detail": {"gen": gen, "which": name, "frame": raw, "delivered": res,
+                                    "status": st}, "log": H.log_slice(log, 20)})
+            continue
+        obs["corner_frames_delivered"] = obs.get("corner_frames_delivered", 0) + 1
+        s0, _ = F.covered_span(gen, raw)
+        covered = raw[s0:-2]
+        right = raw[-2:]
+        for wrong in (R.crc_bytes(covered[6:]), R.crc_bytes(covered[:6]), b"\x00\x00",
+                      b"\xff\xff", bytes([right[1], right[0]])):
+            if wrong == right:
+                continue
+            x = (right[0] ^ wrong[0]) << 8 | (right[1] ^ wrong[1])
+            base = 8 * len(covered)
+            bits = [base + i for i in range(16) if x >> (15 - i) & 1]
+            vv, oo = run_corrupt_one(gen, name, a, raw, bits)
+            n += 1
+            viol += vv
+            for k2, c2 in oo.items():
+                obs[k2] = obs.get(k2, 0) + c2
+    return {"violations": H.cap(viol), "evals": n, "decided": n, "distinct": n, "obs": obs,
+            "sample": {"gen": gen, "corner_frames": len(corner_frames(gen))}}
+
+
 def run_case(case):
+    if case["k"] == "corner":
+        return run_corner(case)
     if case["k"].startswith("crc"):
         return run_crc(case)
     gen, kind = case["gen"], case["kind"]
